@@ -78,61 +78,60 @@ func readerKeyRec(v reflect.Value, sb *strings.Builder, lvl int) bool {
 		sb.WriteString("…")
 		return true
 	}
-	ok := true
-	for _, name := range []string{"depth", "newMapSize", "lastMapSize", "maxMapSize", "newSliceSize", "lastSliceSize"} {
-		f, fok := field(v, name)
-		if !fok {
-			ok = false
-			continue
-		}
-		fmt.Fprintf(sb, "%s=%d ", name, f.Int())
+	if _, ok := field(v, "depth"); !ok {
+		return false
 	}
-	for _, name := range []string{"fieldNameBuf", "stringBuf"} {
-		f, fok := field(v, name)
-		if !fok {
-			ok = false
-			continue
-		}
-		fmt.Fprintf(sb, "%s=%d/%d ", name, f.Len(), f.Cap())
+	if _, ok := field(v, "pool"); !ok {
+		return false
 	}
-	if f, fok := field(v, "arrVal"); fok {
-		fmt.Fprintf(sb, "arr=%d/%d ", f.Len(), f.Cap())
-	} else {
-		ok = false
-	}
-	if f, fok := field(v, "objVal"); fok {
-		fmt.Fprintf(sb, "obj=%v/%d ", !f.IsNil(), f.Len())
-	} else {
-		ok = false
-	}
-	if f, fok := field(v, "buf"); fok {
-		if sf, sok := field(f, "stackBuf"); sok {
-			fmt.Fprintf(sb, "buf=%d/%d ", sf.Len(), sf.Cap())
-		}
-	}
-	if f, fok := field(v, "pool"); fok {
-		items, iok := field(f, "Items")
-		if !iok {
-			ok = false
-		} else {
-			fmt.Fprintf(sb, "pool[")
-			for i := 0; i < items.Len(); i++ {
-				it := items.Index(i)
-				if it.Kind() == reflect.Interface {
-					it = it.Elem()
+	// every field of the struct, generically (a field added by a refactoring is part of the key)
+	for i := 0; i < v.NumField(); i++ {
+		name := v.Type().Field(i).Name
+		f := reflect.NewAt(v.Field(i).Type(), unsafe.Pointer(v.Field(i).UnsafeAddr())).Elem()
+		switch f.Kind() {
+		case reflect.Int, reflect.Int8, reflect.Int16, reflect.Int32, reflect.Int64:
+			fmt.Fprintf(sb, "%s=%d ", name, f.Int())
+		case reflect.Uint, reflect.Uint8, reflect.Uint16, reflect.Uint32, reflect.Uint64:
+			fmt.Fprintf(sb, "%s=%d ", name, f.Uint())
+		case reflect.Bool:
+			fmt.Fprintf(sb, "%s=%v ", name, f.Bool())
+		case reflect.String:
+			fmt.Fprintf(sb, "%s=%dB ", name, f.Len())
+		case reflect.Slice:
+			fmt.Fprintf(sb, "%s=%d/%d ", name, f.Len(), f.Cap())
+		case reflect.Map:
+			fmt.Fprintf(sb, "%s=%v/%d ", name, !f.IsNil(), f.Len())
+		case reflect.Ptr, reflect.Interface:
+			fmt.Fprintf(sb, "%s=%v ", name, !f.IsNil())
+		case reflect.Struct:
+			if name == "pool" {
+				items, iok := field(f, "Items")
+				if !iok {
+					return false
 				}
-				if it.Kind() == reflect.Ptr && !it.IsNil() {
-					sb.WriteString("{")
-					if !readerKeyRec(it.Elem(), sb, lvl+1) {
-						ok = false
+				sb.WriteString("pool[")
+				for k := 0; k < items.Len(); k++ {
+					it := items.Index(k)
+					if it.Kind() == reflect.Interface {
+						it = it.Elem()
 					}
-					sb.WriteString("}")
+					if it.Kind() == reflect.Ptr && !it.IsNil() {
+						sb.WriteString("{")
+						if !readerKeyRec(it.Elem(), sb, lvl+1) {
+							return false
+						}
+						sb.WriteString("}")
+					}
 				}
+				sb.WriteString("] ")
+			} else if sf, sok := field(f, "stackBuf"); sok {
+				fmt.Fprintf(sb, "%s=%d/%d ", name, sf.Len(), sf.Cap())
+			} else {
+				fmt.Fprintf(sb, "%s=struct ", name)
 			}
-			fmt.Fprintf(sb, "] ")
+		default:
+			fmt.Fprintf(sb, "%s=%v ", name, f.Kind())
 		}
-	} else {
-		ok = false
 	}
-	return ok
+	return true
 }
